@@ -5,7 +5,8 @@ import ast
 
 from sa.core import Ob
 from sa.pm import AnalysisError, norm, body_nodes
-from sa import gi, df, ru, ct
+from sa import gi, df, ru, ct, sym
+from sa.pm import Undecided
 from sa.gi import IntSet, iv, GuardWalker, SymbolicAtomizer, reach_sets
 
 TX = "pycoin/coins/bitcoin/Tx.py"
@@ -18,167 +19,83 @@ SSTR = "pycoin/satoshi/satoshi_string.py"
 U, E = IntSet.all(), IntSet.empty()
 
 
+_REF = None
+
+
+def _ref():
+    global _REF
+    if _REF is None:
+        import os
+        _REF = ast.parse(open(os.path.join(os.path.dirname(os.path.dirname(os.path.abspath(__file__))), "spec", "ref_tx.py")).read())
+    return _REF
+
+
+INTS = lambda t: t in ("v", "v1", "v2", "count", "size", "i", "version", "lock_time") or t.startswith(("len(", "ord(", "int("))
+
+
+def _refcheck(ctx, rel, dotted, refname, key, ints=None):
+    fi = ctx.p.functions.get(ctx.p.module(rel).name + "." + dotted) or ctx.func(rel, dotted)
+    return sym.against_reference(ctx, fi, _ref(), refname, key, ints or INTS)
+
+
 # ------------------------------------------------------------------ C07.1
 def c07_1(ctx):
-    s = ctx.func(TX, "Tx.stream")
-    defs = {}
-    tr = ct.write_trace(s.node, "f", defs=defs)
-    got = [(i.kind, i.fmt, i.value, i.loop, ct.fmt_formula(i.reach)) for i in tr]
-    want = [
-        ("fmt", "L", "self.version", None, "True"),
-        ("const", None, "0001", None, "include_witnesses"),
-        ("fmt", "I", "len(self.txs_in)", None, "True"),
-        ("call", "stream(blank_solutions=blank_solutions)", "t", "t in self.txs_in", "True"),
-        ("fmt", "I", "len(self.txs_out)", None, "True"),
-        ("call", "stream", "t", "t in self.txs_out", "True"),
-        ("fmt", "I", "len(witness)", "tx_in in self.txs_in", "include_witnesses"),
-        ("fmt", "S", "w", "tx_in in self.txs_in / w in witness", "include_witnesses"),
-        ("fmt", "L", "self.lock_time", None, "True"),
-        ("call", "stream_unspents", "self", None, "include_unspents and (not self.missing_unspents())"),
-    ]
-    ctx.check(got == want, "tx-writer-trace", ctx.where(s), "Tx.stream writes %s; BIP144: version, [00 01], inputs, outputs, [witness stacks: count + items per input], lock time" % [g for g in got if g not in want][:3],
-              sample={"trace": [repr(i) for i in tr]})
-    d = df.single_defs(s.node)
-    iw = d.get("include_witnesses")
-    ctx.check(iw is not None and norm(iw) == "include_witness_data and self.has_witness_data()", "extended-form-condition", ctx.where(s), "the extended form is not used exactly when include_witness_data and some witness is non-empty")
-    wd = [st for st in body_nodes(s.node) if isinstance(st, ast.Assign) and norm(st.targets[0]) == "witness"]
-    ctx.check(len(wd) == 1 and norm(wd[0].value) == "tx_in.witness", "witness-source", ctx.where(s), "the witness written is not tx_in.witness")
-    h = ctx.func(TX, "Tx.has_witness_data")
-    ctx.check("return any((len(tx_in.witness) > 0 for tx_in in self.txs_in))" in norm(h.node), "has-witness", ctx.where(h), "has_witness_data is not `any input has a non-empty witness`")
-    # reader
-    p = ctx.func(TX, "Tx.parse")
-    t = norm(p.node)
-    checks = [
-        ("version, = parse_struct('L', f)", "version"),
-        ("v1: int | None = ord(f.read(1))", "marker byte"),
-        ("is_segwit: bool | int = bool(allow_segwit and v1 == 0)", "marker 00 recognised only when segwit parsing is allowed"),
-        ("flag = f.read(1)", "flag byte"),
-        ("if flag == b'\\x00' or len(flag) == 0:", "flag 00 rejected"),
-        ("is_segwit = v2 & 1", "witness flag bit 0"),
-        ("count = parse_satoshi_int(f, v=v1)", "input count (first byte reused for legacy form)"),
-        ("txs_in.append(class_.TxIn.parse(f))", "inputs"),
-        ("count = parse_satoshi_int(f, v=v2)", "output count"),
-        ("txs_out.append(class_.TxOut.parse(f))", "outputs"),
-        ("for tx_in in txs_in:", "witness per input"),
-        ("stack.append(parse_satoshi_string(f))", "witness items"),
-        ("tx_in.witness = stack", "witness stored"),
-        ("lock_time, = parse_struct('L', f)", "lock time"),
-        ("return class_(version, txs_in, txs_out, lock_time)", "constructor order"),
-    ]
-    pos = -1
-    for frag, what in checks:
-        i = t.find(frag)
-        ctx.check(i > pos, "tx-reader:%s" % what, ctx.where(p), "Tx.parse: %s (`%s`) missing or out of order" % (what, frag), what="reader:" + what, sample=None)
-        if i > pos:
-            pos = i
-    w = GuardWalker(ru.opaque)
-    w.run(p.node.body)
-    wit = [(st, r) for st, r in w.visits if norm(st) == "tx_in.witness = stack"]
-    from rules.C01 import can_be
-
-    def sat(f):
-        return can_be(f, "\0none")
-    ctx.check(len(wit) == 1 and sat(gi.f_and(wit[0][1], ("op", "is_segwit"))) and not sat(gi.f_and(wit[0][1], ("not", ("op", "is_segwit")))), "witness-read-iff-flag", ctx.where(p), "witness stacks are not read exactly when the marker/flag announced them")
-    lt = [(st, r) for st, r in w.visits if "lock_time" in norm(st) and "parse_struct" in norm(st)]
-    ctx.check(len(lt) == 1 and sat(gi.f_and(lt[0][1], ("op", "is_segwit"))) and sat(gi.f_and(lt[0][1], ("not", ("op", "is_segwit")))), "locktime-unconditional", ctx.where(p), "lock time is not read unconditionally")
-    # TxIn / TxOut
-    for rel, cls, fmt, fields in ((TXIN, "TxIn", "#LSL", ["previous_hash", "previous_index", "script", "sequence"]), (TXOUT, "TxOut", "QS", ["coin_value", "script"])):
-        s_ = ctx.func(rel, cls + ".stream")
-        tr = ct.write_trace(s_.node, "f")
-        got = [(i.fmt, i.value) for i in tr]
-        want_w = list(zip(fmt, ["self." + x for x in fields]))
-        if cls == "TxIn":
-            want_w[2] = ("S", "b'' if blank_solutions else self.script")
-        ctx.check(got == want_w, "writer:%s" % cls, ctx.where(s_), "%s.stream writes %s, wire format %s" % (cls, got, want_w), sample={"trace": [repr(i) for i in tr]})
-        p_ = ctx.func(rel, cls + ".parse")
-        ps = ct.parse_struct_calls(p_.node)
-        init = ctx.func(rel, cls + ".__init__")
-        rets = df.returns_of(p_.node)
-        ok = len(ps) == 1 and ps[0][0] == fmt and init.params()[1:1 + len(fields)] == fields and len(rets) == 1 and norm(rets[0].value) == "cls(*parse_struct('%s', f))" % fmt
-        ctx.check(ok, "reader:%s" % cls, ctx.where(p_), "%s.parse does not read %s into the constructor (%s)" % (cls, fmt, init.params()[1:]))
-        stores = {norm(st.targets[0]): norm(st.value) for st in body_nodes(init.node) if isinstance(st, ast.Assign)}
-        ok = all(stores.get("self." + x) in (x, "self.COIN_VALUE_CAST_F(%s)" % x) for x in fields)
-        ctx.check(ok, "fields:%s" % cls, ctx.where(init), "%s.__init__ does not store its wire fields unchanged: %s" % (cls, stores))
+    _refcheck(ctx, TX, "Tx.stream", "tx_stream", "tx-writer")
+    _refcheck(ctx, TX, "Tx.has_witness_data", "tx_has_witness_data", "has-witness")
+    _refcheck(ctx, TX, "Tx.parse", "tx_parse", "tx-reader")
+    for rel, cls, pre in ((TXIN, "TxIn", "txin"), (TXOUT, "TxOut", "txout")):
+        _refcheck(ctx, rel, cls + ".stream", pre + "_stream", "writer:%s" % cls)
+        _refcheck(ctx, rel, cls + ".parse", pre + "_parse", "reader:%s" % cls)
+        _refcheck(ctx, rel, cls + ".__init__", pre + "_init", "fields:%s" % cls)
 
 
 # ------------------------------------------------------------------ C07.2
 def c07_2(ctx):
-    h = ctx.func(TX, "Tx.hash")
-    tr = ct.write_trace(h.node, "s")
-    ctx.check(tr and tr[0].kind == "call" and tr[0].fmt == "stream(include_witness_data=False)" and tr[0].value == "self", "txid-strips-witness", ctx.where(h), "Tx.hash does not hash the witness-stripped serialisation (%s)" % tr[:1],
-              sample={"trace": [repr(i) for i in tr]})
-    w = ctx.func(TX, "Tx.w_hash")
-    ctx.check("return double_sha256(self.as_bin())" in norm(w.node), "wtxid-full", ctx.where(w), "Tx.w_hash is not double_sha256 of the full serialisation")
-    ab = ctx.func(CTX, "Tx.as_bin")
-    ctx.check("self.stream(f, *args, **kwargs)" in norm(ab.node) and "return f.getvalue()" in norm(ab.node), "as-bin", ctx.where(ab), "as_bin is not the streamed bytes")
+    _refcheck(ctx, TX, "Tx.hash", "tx_hash", "txid-strips-witness")
+    _refcheck(ctx, TX, "Tx.w_hash", "tx_w_hash", "wtxid-full")
+    _refcheck(ctx, CTX, "Tx.as_bin", "btx_as_bin", "as-bin")
     a = ctx.func(TX, "Tx.stream").node.args
     names = [x.arg for x in a.args]
     d = dict(zip(names[len(names) - len(a.defaults):], a.defaults))
-    ctx.check(isinstance(d.get("include_witness_data"), ast.Constant) and d["include_witness_data"].value is True and d["include_unspents"].value is False and d["blank_solutions"].value is False,
+    ctx.check(all(isinstance(d.get(k), ast.Constant) for k in ("include_witness_data", "include_unspents", "blank_solutions")) and d["include_witness_data"].value is True and d["include_unspents"].value is False and d["blank_solutions"].value is False,
               "stream-defaults", TX + ":1", "Tx.stream defaults are not (blank_solutions=False, include_unspents=False, include_witness_data=True)")
-    i = ctx.func(CTX, "Tx.id")
-    ctx.check("return b2h_rev(self.hash())" in norm(i.node), "txid-text", ctx.where(i), "Tx.id is not the reversed hex of hash()")
-    wi = ctx.func(TX, "Tx.w_id")
-    ctx.check("return b2h_rev(self.w_hash())" in norm(wi.node), "wtxid-text", ctx.where(wi), "Tx.w_id is not the reversed hex of w_hash()")
-    fb = ctx.func(CTX, "Tx.from_bin")
-    t = norm(fb.node)
-    ctx.check("tx = class_.parse(f)" in t and "tx.parse_unspents(f)" in t and "tx.unspents = []" in t, "from-bin", ctx.where(fb), "from_bin does not parse the transaction and then the optional unspents extension")
-    fh = ctx.func(CTX, "Tx.from_hex")
-    ctx.check("return class_.from_bin(h2b(hex_string))" in norm(fh.node), "from-hex", ctx.where(fh), "from_hex is not from_bin(h2b(text))")
-    ah = ctx.func(CTX, "Tx.as_hex")
-    ctx.check("return b2h(self.as_bin(*args, **kwargs))" in norm(ah.node), "as-hex", ctx.where(ah), "as_hex is not b2h(as_bin())")
+    _refcheck(ctx, CTX, "Tx.id", "btx_id", "txid-text")
+    _refcheck(ctx, TX, "Tx.w_id", "tx_w_id", "wtxid-text")
+    _refcheck(ctx, CTX, "Tx.from_bin", "btx_from_bin", "from-bin")
+    _refcheck(ctx, CTX, "Tx.from_hex", "btx_from_hex", "from-hex")
+    _refcheck(ctx, CTX, "Tx.as_hex", "btx_as_hex", "as-hex")
 
 
 # ------------------------------------------------------------------ C07.3
 def c07_3(ctx):
     f = ctx.func(SINT, "stream_satoshi_int")
     v = f.params()[1]
-    w = GuardWalker(SymbolicAtomizer(ru.subject({v}), df.const_int))
-    w.run(f.node.body)
+    w = sym.int_walk(ctx, f, {v})
     got = {}
-    for st, r in w.visits:
-        if isinstance(st, ast.Expr) and isinstance(st.value, ast.Call) and df.last_attr(st.value) == "write":
-            a = st.value.args[0]
-            parts = df.flatten_add(a)
-            prefix = parts[0].value.hex() if len(parts) == 2 and isinstance(parts[0], ast.Constant) else ""
-            pk = parts[-1]
-            fmt = pk.args[0].value if isinstance(pk, ast.Call) and norm(pk.func) == "struct.pack" else None
-            got[(prefix, fmt)] = gi.sat_set(r, U, E)
+    for e in sym.calls_matching(w, ".write"):
+        a = e.call.args[0] if e.call.args else None
+        if a is None:
+            continue
+        parts = df.flatten_add(a)
+        prefix = parts[0].value.hex() if len(parts) == 2 and isinstance(parts[0], ast.Constant) and isinstance(parts[0].value, bytes) else ""
+        pk = parts[-1]
+        fmt = pk.args[0].value if isinstance(pk, ast.Call) and norm(pk.func) == "struct.pack" and pk.args and isinstance(pk.args[0], ast.Constant) else None
+        got[(prefix, fmt)] = got.get((prefix, fmt), E) | sym.may_set(e.reach, U, E)
     want = {("", "<B"): iv(None, 252), ("fd", "<H"): iv(253, 65535), ("fe", "<L"): iv(65536, 0xFFFFFFFF), ("ff", "<Q"): iv(0x100000000, None)}
-    for k in sorted(set(got) | set(want)):
+    for k in sorted(set(got) | set(want), key=repr):
         g, wv = got.get(k), want.get(k)
         ctx.check(g == wv, "compact-size-writer:%s" % (k[1],), ctx.where(f),
-                  "stream_satoshi_int uses prefix %r / format %r for values %s; the compact-size encoding requires %s" % (k[0], k[1], g.fmt() if g is not None else None, wv.fmt() if wv is not None else "no such form"),
+                  "stream_satoshi_int uses prefix %r / format %r for values %s; the compact-size encoding requires %s" % (k[0], k[1], g.fmt() if g is not None else None, wv.fmt() if wv is not None else "nothing"),
                   sample={"prefix": k[0], "format": k[1], "values": g.fmt() if g is not None else None})
-    p = ctx.func(SINT, "parse_satoshi_int")
-    w = GuardWalker(SymbolicAtomizer(ru.subject({"v"}), df.const_int))
-    w.run(p.node.body)
-    gotp = {}
-    for st, r in w.visits:
-        if isinstance(st, ast.Assign) and "struct.unpack" in norm(st.value):
-            c = [c for c in ast.walk(st.value) if isinstance(c, ast.Call) and norm(c.func) == "struct.unpack"][0]
-            rd = [c2 for c2 in ast.walk(c) if isinstance(c2, ast.Call) and df.last_attr(c2) == "read"][0]
-            gotp[(c.args[0].value, df.const_int(rd.args[0]))] = gi.sat_set(r, U, E, assume={"v is None": False})
-    wantp = {("<H", 2): iv(253, 253), ("<L", 4): iv(254, 254), ("<Q", 8): iv(255, 255)}
-    ctx.check(gotp == wantp, "compact-size-reader", ctx.where(p), "parse_satoshi_int reads %s; compact size: fd -> u16, fe -> u32, ff -> u64" % {k: v.fmt() for k, v in gotp.items()},
-              sample={"reader": {str(k): v.fmt() for k, v in gotp.items()}})
-    ctx.check("v = ord(f.read(1))" in norm(p.node) and "return v" in norm(p.node), "compact-size-first-byte", ctx.where(p), "parse_satoshi_int does not start from one byte / return small values directly")
-    s = ctx.func(SSTR, "stream_satoshi_string")
-    t = norm(s.node)
-    ctx.check("stream_satoshi_int(f, len(v))" in t and "f.write(v)" in t and t.index("stream_satoshi_int") < t.index("f.write(v)"), "var-string-writer", ctx.where(s), "stream_satoshi_string is not compact-size length then bytes")
-    r = ctx.func(SSTR, "parse_satoshi_string")
-    t = norm(r.node)
-    ctx.check("size = parse_satoshi_int(f)" in t and "return f.read(size)" in t, "var-string-reader", ctx.where(r), "parse_satoshi_string is not compact-size length then that many bytes")
+    _refcheck(ctx, SINT, "stream_satoshi_int", "si_stream", "compact-size-writer-form")
+    _refcheck(ctx, SINT, "parse_satoshi_int", "si_parse", "compact-size-reader")
+    _refcheck(ctx, SSTR, "stream_satoshi_string", "ss_stream", "var-string-writer")
+    _refcheck(ctx, SSTR, "parse_satoshi_string", "ss_parse", "var-string-reader")
 
 
 # ------------------------------------------------------------------ C07.4
 def c07_4(ctx):
     c = ctx.p.cls(SP, "Spendable")
-    init = ctx.func(SP, "Spendable.__init__")
-    order = init.params()[1:]
-    want_order = ["coin_value", "script", "tx_hash", "tx_out_index", "block_index_available", "does_seem_spent", "block_index_spent"]
-    ctx.check(order == want_order, "constructor-order", ctx.where(init), "Spendable.__init__ parameters are %s" % order)
-    # attributes assigned by the class (and its bases)
     assigned = set()
     for k in ctx.p.mro(c):
         i = k.methods.get("__init__")
@@ -187,79 +104,26 @@ def c07_4(ctx):
                 if isinstance(st, ast.Assign) and isinstance(st.targets[0], ast.Attribute) and norm(st.targets[0].value) == "self":
                     assigned.add(st.targets[0].attr)
     s = ctx.func(SP, "Spendable.stream")
-    tr = ct.write_trace(s.node, "f")
-    got = [(i.fmt, i.value, ct.fmt_formula(i.reach)) for i in tr if i.kind != "call"]
-    want = [("#", "self.tx_hash", "as_spendable"), ("L", "self.tx_out_index", "as_spendable"), ("I", "self.block_index_available", "as_spendable"),
-            ("b", "bool(self.does_seem_spent)", "as_spendable"), ("I", "self.block_index_spent", "as_spendable")]
-    ctx.check(got == want, "binary-writer", ctx.where(s), "Spendable.stream(as_spendable=True) writes %s after the TxOut; the reader expects #LIbI = tx_hash, tx_out_index, block_index_available, does_seem_spent, block_index_spent" % got,
-              sample={"trace": [repr(i) for i in tr]})
+    methods = {m for k in ctx.p.mro(c) for m in k.methods}
+    cattrs = {a for k in ctx.p.mro(c) for a in k.attrs}
     for n in ast.walk(s.node):
-        if isinstance(n, ast.Attribute) and norm(n.value) == "self" and isinstance(n.ctx, ast.Load) and n.attr not in assigned and n.attr not in {m for k in ctx.p.mro(c) for m in k.methods} and n.attr not in {a for k in ctx.p.mro(c) for a in k.attrs}:
+        if isinstance(n, ast.Attribute) and norm(n.value) == "self" and isinstance(n.ctx, ast.Load) and n.attr not in assigned and n.attr not in methods and n.attr not in cattrs:
             ctx.bad("writer-reads-missing-attribute:%s" % n.attr, ctx.where(s, n), "Spendable.stream reads self.%s, which no constructor of the class assigns (AttributeError)" % n.attr)
-    ctx.check("super(Spendable, self).stream(f)" in norm(s.node), "binary-writer-txout-part", ctx.where(s), "Spendable.stream does not start with the TxOut part")
-    p = ctx.func(SP, "Spendable.parse")
-    ps = ct.parse_struct_calls(p.node)
-    ctx.check(len(ps) == 1 and ps[0][0] == "QS#LIbI" and "return cls(*parse_struct('QS#LIbI', f))" in norm(p.node), "binary-reader", ctx.where(p), "Spendable.parse is not QS#LIbI into the constructor")
-    # text form
-    at = ctx.func(SP, "Spendable.as_text")
-    rets = df.returns_of(at.node)
-    parts = []
-    if len(rets) == 1 and isinstance(rets[0].value, ast.Call) and norm(rets[0].value.func) == "'/'.join" and isinstance(rets[0].value.args[0], ast.List):
-        parts = [norm(e) for e in rets[0].value.args[0].elts]
-    want_parts = ["b2h_rev(self.tx_hash)", "str(self.tx_out_index)", "b2h(self.script)", "str(self.coin_value)", "str(self.block_index_available)", "'%d' % self.does_seem_spent", "str(self.block_index_spent)"]
-    ctx.check(parts == want_parts, "text-writer", ctx.where(at), "Spendable.as_text joins %s" % parts, sample={"parts": parts})
-    ft = ctx.func(SP, "Spendable.from_text")
-    defs = df.single_defs(ft.node)
-    unp = [st for st in body_nodes(ft.node) if isinstance(st, ast.Assign) and isinstance(st.targets[0], ast.Tuple) and norm(st.value) == "parts"]
-    names = [norm(e) for e in unp[0].targets[0].elts] if unp else []
-    rets = df.returns_of(ft.node)
-    args = [norm(df.expand(a, defs)) for a in rets[0].value.args] if len(rets) == 1 and isinstance(rets[0].value, ast.Call) else []
-    ok = len(names) == 7
-    if ok:
-        h, i, sc, cv, bia, dss, bis = names
-        want_args = ["int(%s)" % cv, "h2b(str(%s))" % sc, "h2b_rev(str(%s))" % h, "int(%s)" % i, "int(%s)" % bia, "bool(int(%s))" % dss, "int(%s)" % bis]
-        ok = args == want_args
-    ctx.check(ok, "text-reader", ctx.where(ft), "Spendable.from_text converts the text fields as %s; each numeric field must be the exact integer of its text (int(text)), hashes h2b_rev, script h2b, in writer order" % args,
-              sample={"constructor_args": args})
-    ctx.check("parts: list[Any] = (text.split('/') + ['0', '0', '0'])[:7]" in norm(ft.node), "text-split", ctx.where(ft), "from_text does not split on '/' with defaults for the three optional fields")
-    # dict form
-    ad = ctx.func(SP, "Spendable.as_dict")
-    rets = df.returns_of(ad.node)
-    kw = {k.arg: norm(k.value) for k in rets[0].value.keywords} if len(rets) == 1 and isinstance(rets[0].value, ast.Call) else {}
-    want_kw = {"coin_value": "self.coin_value", "script_hex": "b2h(self.script)", "tx_hash_hex": "b2h_rev(self.tx_hash)", "tx_out_index": "self.tx_out_index",
-               "block_index_available": "self.block_index_available", "does_seem_spent": "int(self.does_seem_spent)", "block_index_spent": "self.block_index_spent"}
-    ctx.check(kw == want_kw, "dict-writer", ctx.where(ad), "Spendable.as_dict is %s" % kw)
-    fd = ctx.func(SP, "Spendable.from_dict")
-    rets = df.returns_of(fd.node)
-    args = [norm(a) for a in rets[0].value.args] if len(rets) == 1 and isinstance(rets[0].value, ast.Call) else []
-    want_args = ["d['coin_value']", "h2b(d['script_hex'])", "h2b_rev(d['tx_hash_hex'])", "d['tx_out_index']", "d.get('block_index_available', 0)", "d.get('does_seem_spent', 0)", "d.get('block_index_spent', 0)"]
-    ctx.check(args == want_args, "dict-reader", ctx.where(fd), "Spendable.from_dict reads %s" % args)
-    ti = ctx.func(SP, "Spendable.tx_in")
-    ctx.check("return self.TxIn(self.tx_hash, self.tx_out_index, script, sequence)" in norm(ti.node), "spendable-outpoint", ctx.where(ti), "Spendable.tx_in does not spend (tx_hash, tx_out_index)")
+    for nm in ("__init__", "stream", "parse", "as_text", "from_text", "as_dict", "from_dict", "tx_in"):
+        _refcheck(ctx, SP, "Spendable." + nm, "sp_" + nm.strip("_"), "spendable:%s" % nm)
 
 
 # ------------------------------------------------------------------ C07.5
 def c07_5(ctx):
-    s = ctx.func(TX, "Tx.stream_unspents")
-    t = norm(s.node)
-    ok = "for tx_out in self.unspents:" in t and "if tx_out is None:" in t and "tx_out = self.TxOut(0, b'')" in t and "tx_out.stream(f)" in t
-    ctx.check(ok, "unspents-writer", ctx.where(s), "stream_unspents does not write one TxOut per input with (0, empty) standing for an unknown one")
-    p = ctx.func(TX, "Tx.parse_unspents")
-    t = norm(p.node)
-    ifs = [n for n in body_nodes(p.node) if isinstance(n, ast.If) and any(isinstance(x, ast.Assign) and isinstance(x.value, ast.Constant) and x.value.value is None for x in n.body)]
-    ok = len(ifs) == 1 and norm(ifs[0].test) in ("tx_out_or_none.coin_value == 0", "0 == tx_out_or_none.coin_value")
-    ctx.check(ok, "unspents-none-marker", ctx.where(p), "parse_unspents recognises the `unknown` placeholder by `%s`; the writer's marker is a zero amount, so any other test loses spent outputs that legitimately look like it (e.g. empty scripts)"
-              % ([norm(i.test) for i in ifs]), sample={"test": [norm(i.test) for i in ifs]})
-    ok = "for i in enumerate(self.txs_in):" in t or "for _ in self.txs_in:" in t or "for i in range(len(self.txs_in)):" in t
-    ctx.check(ok and "self.TxOut.parse(f)" in t and "self.set_unspents(unspents)" in t, "unspents-reader", ctx.where(p), "parse_unspents does not read one TxOut per input and install the list")
-    su = ctx.func(CTX, "Tx.set_unspents")
-    ctx.check("if len(unspents) != len(self.txs_in):" in norm(su.node), "unspents-count", ctx.where(su), "set_unspents does not insist on one unspent per input")
+    _refcheck(ctx, TX, "Tx.stream_unspents", "tx_stream_unspents", "unspents-writer")
+    _refcheck(ctx, TX, "Tx.parse_unspents", "tx_parse_unspents", "unspents-reader")
+    _refcheck(ctx, CTX, "Tx.set_unspents", "btx_set_unspents", "unspents-count")
 
 
 OBLIGATIONS = [
-    Ob("C07.1", "Tx / TxIn / TxOut writer and reader traces agree with BIP144", c07_1, floor=25, engines="CT,GI", breaks_if="witness transactions; empty witness items; mixed inputs"),
-    Ob("C07.2", "txid hashes the witness-stripped form, wtxid the full form; hex/bin wrappers", c07_2, floor=9, engines="CT,DF"),
-    Ob("C07.3", "compact-size partition: writer intervals and reader prefixes symmetric", c07_3, floor=8, engines="GI", breaks_if="lengths/counts of exactly 252, 253, 65535, 65536, 2^32"),
-    Ob("C07.4", "Spendable binary / text / dict forms are field-symmetric with exact integer conversions", c07_4, floor=10, engines="CT,DF,PM", breaks_if="amounts above 2^53 in the text form; binary form"),
-    Ob("C07.5", "unspents extension: zero amount <-> unknown", c07_5, floor=4, engines="CT", breaks_if="spent output with empty script and non-zero amount"),
+    Ob("C07.1", "Tx / TxIn / TxOut writer and reader traces agree with BIP144", c07_1, floor=9, engines="SYM", breaks_if="witness transactions; empty witness items; mixed inputs"),
+    Ob("C07.2", "txid hashes the witness-stripped form, wtxid the full form; hex/bin wrappers", c07_2, floor=9, engines="SYM"),
+    Ob("C07.3", "compact-size partition: writer intervals and reader prefixes symmetric", c07_3, floor=8, engines="SYM,GI", breaks_if="lengths/counts of exactly 252, 253, 65535, 65536, 2^32"),
+    Ob("C07.4", "Spendable binary / text / dict forms are field-symmetric with exact integer conversions", c07_4, floor=8, engines="SYM,PM", breaks_if="amounts above 2^53 in the text form; binary form"),
+    Ob("C07.5", "unspents extension: zero amount <-> unknown", c07_5, floor=3, engines="SYM", breaks_if="spent output with empty script and non-zero amount"),
 ]
